@@ -26,5 +26,7 @@ func (fg *FunctionGenerator) VerifMethods() map[string]map[string]funcGen.VerifF
 
 // VerifState reports length, capacity and materialisation state of a list (coverage measurements only).
 func (l *List) VerifState() (length, capacity int, itemsPresent bool) {
+	l.mu.Lock()
+	defer l.mu.Unlock()
 	return len(l.items), cap(l.items), l.itemsPresent
 }
